@@ -157,7 +157,7 @@ func (ev *Eval) unary(e *wgen.Unary) Val {
 				}
 				r = Sc{B: uint64(-int64(s.B))}
 			case wgen.KF32:
-				r = Sc{B: s.B ^ 0x80000000, Tol: s.Tol, Ind: s.Ind}
+				r = Sc{B: s.B ^ 0x80000000, Tol: s.Tol, Ind: s.Ind, ZS: s.ZS}
 			case wgen.KAbsFloat:
 				r = Sc{B: f64bits(-bitsf64(s.B))}
 			default:
